@@ -725,7 +725,7 @@ func TestC04(t *testing.T) {
 	out := hx.NewOut()
 	defer out.Close("correspondence: full ledger + in-flight records after every op (messages, claim handlers, precompile calls) on 3 users x 3 chains x 5 token groups; monitors: conservation, stated per-holder deltas, withdrawability, ERC-20 books. non-trivial = distinct (op, outcome class)")
 
-	nSeq := hx.N(6, 40)
+	nSeq := hx.N(30, 150)
 	nOps := hx.N(60, 150)
 	if v := hx.Tier(); v == "thorough" {
 		nOps = 150
